@@ -64,6 +64,8 @@ def session(bdir, sid, seed, corpus, sz, contempt):
         fixed["Hash"] = "8"
     elif contemptsession:
         fixed["Hash"] = "1"
+    elif rnd.random() < 0.2:
+        fixed["Hash"] = rnd.choice(["17", "24", "40", "3"])      # sizes that are not a power of two (nor a multiple of 16 MB): clearing must reach the tail
     elif rnd.random() < 0.6:
         fixed["Hash"] = "1"        # a small table makes slot replacement (and hence the generation counter) matter early
     A = uci.Engine(os.path.join(bdir, "texel-" + net))
